@@ -257,6 +257,34 @@ func (g *fromGo) stmt(s ast.Stmt) *Stmt {
 			st.Cases = append(st.Cases, c)
 		}
 		return st
+	case *ast.TypeSwitchStmt:
+		// `switch [init;] TV(tag, uses...).(type) { case T0, T1: ... }`: a tagged switch written as a type switch
+		es, ok := s.Assign.(*ast.ExprStmt)
+		if !ok {
+			return g.unknownStmt(s)
+		}
+		ta, ok := es.X.(*ast.TypeAssertExpr)
+		if !ok || ta.Type != nil {
+			return g.unknownStmt(s)
+		}
+		t, uses, ok := atomCall(ta.X, "TV")
+		if !ok {
+			return g.unknownStmt(s)
+		}
+		st := &Stmt{K: Switch, Init: g.optSimple(s.Init), Tag: t, Uses: uses}
+		for _, cs := range s.Body.List {
+			cc := cs.(*ast.CaseClause)
+			c := &Case{Default: cc.List == nil, Body: g.stmts(cc.Body)}
+			for _, k := range cc.List {
+				id, ok := k.(*ast.Ident)
+				if !ok || len(id.Name) != 2 || id.Name[0] != 'T' || id.Name[1] < '0' || id.Name[1] > '9' {
+					return g.unknownStmt(s)
+				}
+				c.Ks = append(c.Ks, int(id.Name[1]-'0'))
+			}
+			st.Cases = append(st.Cases, c)
+		}
+		return st
 	case *ast.ForStmt:
 		c, uses, ok := g.cond(s.Cond)
 		if !ok {
